@@ -21,10 +21,11 @@ static struct model {
 } M;
 
 enum { E_OBSNEW, E_DUP_OLD, E_DUP_NEW, E_REOBS_LAST, E_OTHER, E_OTHER2, E_QUERY, E_QUERY_BR, E_QUERY_HI, E_RESET0, E_RESET1, E_DISC, E_QLT_ICON, E_QLT_NAME,
-       E_QLT_HWID, E_EMIT, E_BG1, E_BG2, E_NEV };     /* E_BG1/2 (only with --b 1): a neighbour's Hello heard on the responder's second / third interface */
+       E_QLT_HWID, E_EMIT, E_BG1, E_BG2, E_DUP_KIND, E_NEV };     /* E_BG1/2 (only with --b 1): a neighbour's Hello heard on the responder's second / third interface */
 static const char *ENAME[] = {"ObsNew", "ProbeDup(oldest)", "ProbeDup(newest)", "Probe again from the most recently recorded station", "ProbeForPEER", "TrainForPEER(eth dst OWN)", "Query(M1,seq=1)", "Query(M2 via BR,seq=0xFFFE)",
                               "Query(M1,seq=0x0203)", "Reset(tos0)", "Reset(tos1)", "Discover(M1)", "QueryLargeTlv(icon)", "QueryLargeTlv(name)", "QueryLargeTlv(hwid)", "Emit(1)",
-                              "on interface 1: a neighbour's Hello", "on interface 2: a neighbour's Hello"};
+                              "on interface 1: a neighbour's Hello", "on interface 2: a neighbour's Hello",
+                              "the newest outstanding station again, as the other kind of frame (Probe <-> Train)"};
 
 static int has(int k) { return (M.out[k >> 3] >> (k & 7)) & 1; }
 static void setb(int k, int v) { if (v) M.out[k >> 3] |= (uint8_t)(1u << (k & 7)); else M.out[k >> 3] &= (uint8_t)~(1u << (k & 7)); }
@@ -45,12 +46,14 @@ static void obs_addr(int k, uint8_t *real, uint8_t *eth) {
 }
 static int obs_kind(int k) { return (k & 1) ? 0 : 1; }      /* descriptor type: 1 Probe, 0 Train */
 
+static int flip_kind;              /* the next send_obs uses the other opcode (same addresses: still the same observation) */
 static void send_obs(int k, int for_us) {
     uint8_t f[64], real[6], eth[6];
     obs_addr(k, real, eth);
     const uint8_t *own = W.iface[0].mac;
     const uint8_t *dst = for_us ? own : vf_station[ST_PEER];
-    fb_base(f, (k % 5 == 4) ? vf_station[ST_BC] : own, eth, 0, obs_kind(k) ? 0x04 : 0x03, dst, real, 0);
+    fb_base(f, (k % 5 == 4) ? vf_station[ST_BC] : own, eth, 0, (obs_kind(k) != 0) != (flip_kind != 0) ? 0x04 : 0x03, dst, real, 0);
+    flip_kind = 0;
     vf_iface *fi = &W.iface[0]; memset(fi->recv, 0, fi->recv_prev_len);
     drv_linux_deliver(0, f, 32);
 }
@@ -146,6 +149,7 @@ static void apply(int ev) {
         case E_QLT_NAME: { pev e = ev_qlt(0, ST_M1, ST_M1, 5, 0x11, 0); drv_linux(&e, 0); break; }
         case E_QLT_HWID: { pev e = ev_qlt(0, ST_M1, ST_M1, 5, 0x13, 0); drv_linux(&e, 0); break; }
         case E_EMIT: { pev e = ev_emit1(0, ST_M1, ST_M1, 7, 1, 0, ST_S0, ST_PEER); drv_linux(&e, 0); break; }
+        case E_DUP_KIND: flip_kind = 1; send_obs(newest(), 1); break;      /* same real source, Ethernet source and destination: recorded once */
         case E_BG1: case E_BG2: { pev e = ev_hello(0, ST_PEER, 0x3412); drv_linux(&e, ev - E_BG1 + 1); break; }
     }
     int had_last = is_query && M.last_rec && has(M.last_rec - 1);
@@ -178,6 +182,7 @@ static void apply(int ev) {
 
 static int enabled(int ev) {
     if (ev == E_BG1 || ev == E_BG2) return A.b == 1 && mode == 7;
+    if (ev == E_DUP_KIND) return mode == 7 && M.nout > 0;
     if (mode == 19) return !(ev == E_QUERY_HI || ev == E_OTHER2 || ev == E_RESET1 || ev == E_REOBS_LAST);   /* retention does not depend on sequence numbers */
     if (ev == E_OBSNEW) return M.nout < klimit && !M.reobs;
     if (ev == E_DUP_OLD || ev == E_DUP_NEW) return M.nout > 0;
